@@ -1,9 +1,15 @@
 (* Extraction of the num spec and model for the correspondence driver (ml/num_driver.ml).
-   ExtrOcamlBasic only: N / Z / positive / nat stay the extracted inductive types. *)
+   ExtrOcamlBasic only: N / Z / positive / nat stay the extracted inductive types; Flocq's
+   binary_float loses its proof fields, nothing else. *)
 From Coq Require Import Extraction ExtrOcamlBasic.
-From BS Require Import Base UtfSpec UtfModel NumSpec NumModel.
+From Flocq Require Import Core Binary Bits.
+From BS Require Import Base UtfSpec UtfModel NumSpec NumModel NumFloatModel.
 Extraction Language OCaml.
+Definition f32_is_nan (x : binary32) : bool := Binary.is_nan 24 128 x.
+Definition f64_is_nan (x : binary64) : bool := Binary.is_nan 53 1024 x.
 Extraction "../ml/gen/num_model.ml"
   conv conv_spec load_int convert_by_policy parse_num parse_bool to_text from_chars_int to_chars_int
   policy_spec policy_spec_other_kind classify_spec classify_frac_first bool_spec to_dec in_rangeb lo hi
-  parse_bool_isdigit_args parse_num_isdigit_args isdigit_arg_ok.
+  parse_bool_isdigit_args parse_num_isdigit_args isdigit_arg_ok
+  conv_int_f32 conv_int_f64 conv_f64_f32 conv_f32_f64
+  b32_of_bits bits_of_b32 b64_of_bits bits_of_b64 f32_is_nan f64_is_nan.
